@@ -6,12 +6,17 @@ every collocation condition — interior data points and the two derivative end 
 elimination never divides by zero (`PivotsGood`, which non-singularity of the collocation matrix
 guarantees; Schoenberg–Whitney is a hypothesis); mismatched site counts are errors; evaluating before
 solving is an error; the value part of a dual-abscissa evaluation is the plain evaluation.
-PARTIAL (DESIGN.md "C15 partial"): polynomial reproduction (Marsden), linearity of the solution in the
-data and the chain-rule statement for dual abscissae are covered by the correspondence run and the
-model-free oracle (polynomial data of degree < k reproduced with all derivatives), not by theorems.
+DATA SENSITIVITIES (`C15_data_sensitivity`, `C15_data_value`): a spline solved on list-level dual-number
+data has, at every abscissa and derivative order, a sensitivity to each variable name equal to the spline
+solved on the data's sensitivities to that name (so, with one tag per datum, the unit-data spline), and a
+value equal to the spline solved on the data's values.
+PARTIAL (DESIGN.md "C15 partial"): polynomial reproduction (Marsden) and the chain-rule statement for dual
+abscissae are covered by the correspondence run and the model-free oracle (polynomial data of degree < k
+reproduced with all derivatives), not by theorems.
 -/
 import RateslibModel.Proofs.FSolve
 import RateslibModel.Props.C14
+import RateslibModel.Proofs.FLinearInst
 namespace Rateslib
 open Finset
 
@@ -92,5 +97,32 @@ theorem C15_csolve_shape (s s' : PPSpline α τ) (tau : List α) (y : List τ) (
       exact ⟨rfl, rfl, _, rfl, by simp⟩
 
 end Errors
+
+/-! ### sensitivities to the data -/
+section DataSensitivity
+open Rateslib.Dual
+
+/-- When the data are (list-level, any layout) first-order dual numbers, the solved spline evaluated at
+any abscissa `x` and derivative order `m` has, for every variable name `v`, a sensitivity equal to the
+value of the float spline solved on the data's sensitivities to `v`: with one tag per datum, the
+sensitivity to datum `j` is the spline through the `j`-th unit data. -/
+theorem C15_data_sensitivity (k : Nat) (t tau : List ℝ) (y : List (Dual ℝ)) (hy : ∀ d ∈ y, d.WF)
+    (l r : Nat) (v : String) (sD : PPSpline ℝ (Dual ℝ))
+    (h : (⟨k, t, none⟩ : PPSpline ℝ (Dual ℝ)).csolve tau y l r false = some sD) :
+    ∃ sF : PPSpline ℝ ℝ,
+      (⟨k, t, none⟩ : PPSpline ℝ ℝ).csolve tau (y.map (fun d => den d v)) l r false = some sF ∧
+      ∀ x m, (sD.ppdnev x m).map (fun d => den d v) = sF.ppdnev x m :=
+  spline_hom (fun d => den d v) (den_modHom v) k t tau y hy l r sD h
+
+/-- … and a value equal to the float spline solved on the data's values. -/
+theorem C15_data_value (k : Nat) (t tau : List ℝ) (y : List (Dual ℝ)) (hy : ∀ d ∈ y, d.WF)
+    (l r : Nat) (sD : PPSpline ℝ (Dual ℝ))
+    (h : (⟨k, t, none⟩ : PPSpline ℝ (Dual ℝ)).csolve tau y l r false = some sD) :
+    ∃ sF : PPSpline ℝ ℝ,
+      (⟨k, t, none⟩ : PPSpline ℝ ℝ).csolve tau (y.map (fun d => d.real)) l r false = some sF ∧
+      ∀ x m, (sD.ppdnev x m).map (fun d => d.real) = sF.ppdnev x m :=
+  spline_hom (fun d => d.real) real_modHom k t tau y hy l r sD h
+
+end DataSensitivity
 
 end Rateslib
